@@ -17,6 +17,7 @@ def check(ctx, rep):
     readback(rep, prog, g, table)
     join(rep, prog, g)
     numeric_range(rep, prog, g)
+    printed_tokens(ctx, rep, prog, g, table)
     serde_range(ctx, rep)
 
 
@@ -268,6 +269,93 @@ def literal_components(g, prog, ex):
                             if x[0] == "n":
                                 out.add((clo.key, x[1]))
     return out
+
+
+def printed_tokens(ctx, rep, prog, g, table):
+    """Text level: every template Display prints for an interval, with the version placeholders replaced by any printed
+    version (C12's writer image), is cut by the reader into the same comparators: each simple() takes a non-garbage
+    alternative with exactly the extent of the printed comparator, and the blank between two comparators is the
+    separator of range()."""
+    from .. import peg
+    from ..peg import diff, inter, union
+    from ..wmodels import P as Node
+    from .c05 import build
+    rule = "W-RANGE-TOKENS"
+    rep.rule(rule, 9, "each printed interval is tokenised by the reader into its own comparators (exact extents, no garbage)")
+    try:
+        L, Pg, classes, reps, _, _ = build(prog, g, root="range::range_set", extra_chars="vV.-+xX*<>=~^|")
+        simple = gram.strip(g["range::simple"])
+        real = [a for a in simple.args if not (gram.strip(a).kind == "ref" and gram.strip(a).extra == "range::garbage")]
+        alt5 = Node("alt", real)
+        one = alt5
+        two = Node("seq", [alt5, Node("prim", extra="space1"), alt5])
+    except (Inconclusive, KeyError) as e:
+        rep.inconc("%s: %s" % (rule, e))
+        return
+
+    def lit(ch):
+        return L.sym(classes[("lit", ch)])
+    digit, ident = L.sym(classes["digit"]), L.sym(classes["ref_ident"])
+    dot, dash, plus_ = lit("."), lit("-"), lit("+")
+    num = L.plus(digit)
+    idt = L.plus(ident)
+    ids = L.concat(idt, L.star(L.concat(dot, idt)))
+    W = L.seq(num, dot, num, dot, num, L.opt(L.concat(dash, ids)), L.opt(L.concat(plus_, ids)))
+    bar = L.concat(lit("|"), lit("|"))
+    D = union(L.eps(), L.concat(bar, L.sigma_star()))
+    for (lo, up, c), pieces in sorted(table.items(), key=str):
+        if lo == "U" and up == "U":
+            continue
+        shape = "%s,%s%s" % (lo, up, "(equal versions)" if c == "eq" else "")
+        # language of the printed text: literal pieces + W for every placeholder; comparators split at the blank
+        comps = [[]]
+        for k, v in pieces:
+            if k == "lit":
+                parts = v.split(" ")
+                for i, part in enumerate(parts):
+                    if i > 0:
+                        comps.append([])
+                    comps[-1].append(("lit", part))
+            else:
+                comps[-1].append(("ver", v))
+        langs = []
+        try:
+            for cp in comps:
+                lang = L.eps()
+                for k, v in cp:
+                    if k == "lit":
+                        for ch in v:
+                            lang = L.concat(lang, lit(ch))
+                    else:
+                        lang = L.concat(lang, W)
+                langs.append(lang)
+        except KeyError as e:
+            rep.fail(rule, "<range::BoundSet as std::fmt::Display>::fmt|%s|%s" % (rule, shape), "prints a character the reader's alphabet does not know: %s" % e)
+            continue
+        if len(langs) == 1:
+            T, node = langs[0], one
+        elif len(langs) == 2:
+            T, node = L.seq(langs[0], L.sym(classes["space"]), langs[1]), two
+        else:
+            rep.inconc("%s: template with %d comparators" % (rule, len(langs)))
+            continue
+        try:
+            Mn, Fn = Pg.den(node)
+        except Inconclusive as e:
+            rep.inconc("%s: %s" % (rule, e.reason), e.where)
+            continue
+        full = L.concat(T, D)
+        w1 = inter(full, Fn).witness()
+        w2 = diff(inter(Mn, L.with_marker_anywhere(full)), L.seq(T, L.mark(), D)).witness()
+        if w1 is None and w2 is None:
+            rep.ok(rule)
+        else:
+            w = w1 if w1 is not None else w2
+            rep.fail(rule, "<range::BoundSet as std::fmt::Display>::fmt|%s|%s" % (rule, shape),
+                     "a printed interval is %s by the reader (shortest: %r)" % (
+                         "not recognised comparator by comparator" if w1 is not None else "cut at a different place", L.word_str(w, reps)),
+                     example=L.word_str(w, reps))
+    rep.analysed_item("printed interval templates pushed through the reader's PEG automata")
 
 
 def _collect(cell, where, key, sites):
